@@ -62,7 +62,7 @@ CLAIMED = {
             "byte-at-a-time at d = 0 in both roles, curated (sequence, cut, role) triples at d <= 1 (quick 6, thorough "
             "~70) and two at d <= 2; oracle: get_message() returns exactly the application messages sent, once, whole, "
             "in order; emitted DWAs follow the DWR order; no deadlock/livelock. The SCTP transport classes run the same "
-            "scenario family over a fake pysctp socket (d = 0 over structural cuts, one scenario at d <= 1, thorough three).",
+            "scenario family over a fake pysctp socket (d = 0 over structural cuts - thorough every cut -, one scenario at d <= 1).",
             "Line-level atomicity at shared-attribute lines + every synchronisation/socket/selector operation; fake "
             "socket/selector semantics of Linux loopback; handshake is a deterministic prefix; bounded deviations.",
             "DESIGN.md 4/C04"),
@@ -97,8 +97,8 @@ CLAIMED = {
             "step (command code, R clear, Hop-by-Hop, End-to-End from a boundary alphabet), carries the local origin "
             "and a Result-Code, and answers leave in request order, including two base requests in one read and a "
             "connection reopened with the same node object. SCHED part: two node objects with the same local identity "
-            "receive a DWR / a DPR each at the same moment, every schedule with <= 1 deviation (thorough one scenario at "
-            "<= 2): each connection carries exactly the answer to its own request.",
+            "receive a DWR / a DPR each at the same moment, every schedule with <= 1 deviation (thorough adds the client role "
+            "on the default schedule): each connection carries exactly the answer to its own request.",
             "Same assumptions as C06; identifiers are opaque tokens (data independence); a DPA lost because the transport "
             "thread was kept off the CPU for longer than the node waits before closing is not judged here.",
             "DESIGN.md 4/C07"),
@@ -108,8 +108,9 @@ CLAIMED = {
             "situations incl. an application thread that keeps sending, Closing) x 14 termination causes (local close, "
             "early close with a willing / silent peer, close with a silent peer, close racing with the CEA, DPR, DPA, FIN, "
             "FIN in the middle of a message, RST, refused, non-CEA), both roles (about 60 combinations) over TCP and again "
-            "over the SCTP transport classes (fake pysctp socket): all at d = 0, fifteen at d <= 1 in quick; all TCP ones at "
-            "d <= 1, four SCTP ones at d <= 1 and two at d <= 2 in thorough; at quiescence state "
+            "over the SCTP transport classes (fake pysctp socket): all at d = 0, fourteen at d <= 1 in quick; in thorough the "
+            "TCP combinations of the earlier sessions at d <= 1 and two at d <= 2, the SCTP family and the causes added last "
+            "at the quick bounds; at quiescence state "
             "Closed, sockets closed and de-registered, all worker threads gone, blocked get_message() returned, no lock "
             "held, and in the same execution a second start() with a second scripted handshake reaches Open.",
             "Same scheduling-point and fake-network assumptions as C04/C05; threads that end by an exception during the "
